@@ -273,6 +273,12 @@ def coq_case_files(name, preamble, cases, per_file=250, timeout=900):
         body.append("Eval vm_compute in (failing [%s])." % "; ".join("(%d%%nat, case_%d)" % (cid, cid) for cid, _ in sh))
         texts.append(("%s_%d" % (name, k), "\n".join(body) + "\n"))
     res = coq_eval_many(texts, timeout=timeout)
+    # a shard whose coqc died without a message (killed under memory pressure / shell timeout while other checks run)
+    # is compiled once more on its own before it is reported
+    for i, ((nm, text), (rc, out)) in enumerate(zip(texts, res)):
+        if rc != 0 and not out.strip():
+            log("[coq] shard %s died silently (rc=%s); retrying once" % (nm, rc))
+            res[i] = coq_eval(nm, text, timeout=timeout)
     failing, errors = [], []
     for (nm, _), (rc, out) in zip(texts, res):
         if rc != 0:
